@@ -293,6 +293,20 @@ def part_b(ctx):
     rc, out2 = run("vcf2zarr", "dexplode-init", VCF2, P("d2.icf"), "-n", str(nreq), "-Q", "-p", "0")
     tab = dict(x.split() for x in out2.strip().splitlines() if len(x.split()) == 2)
     check("dexplode-init table agrees with --json", tab.get("num_partitions") == str(n), out2)
+    # an output path that is part-way through a distributed conversion is an existing path too
+    def tree(q):
+        out_ = {}
+        for dp, _, fs in os.walk(q):
+            for f in fs:
+                out_[os.path.relpath(os.path.join(dp, f), q)] = open(os.path.join(dp, f), "rb").read()
+        return out_
+
+    run("vcf2zarr", "dexplode-partition", P("d2.icf"), "0")
+    t0 = tree(P("d2.icf"))
+    for argv in (("explode", vcf, P("d2.icf"), "-Q", "-p", "0"), ("dexplode-init", vcf, P("d2.icf"), "-n", "2", "-Q", "-p", "0")):
+        for answer in ("n\n", "\n"):
+            rc, out = run("vcf2zarr", *argv, inp=answer)
+            check(f"{argv[0]} onto an unfinished intermediate store, declined, leaves it intact", rc != 0 and tree(P("d2.icf")) == t0, out)
     one_based = r.random() < 0.5
     order = list(range(n))
     r.shuffle(order)
@@ -318,6 +332,11 @@ def part_b(ctx):
     check("dencode-init --json prints the partition count", rc == 0 and m >= 1, out)
     for j in range(1, m):
         run("vcf2zarr", "dencode-partition", P("d.vcz"), str(j))
+    t0 = tree(P("d.vcz"))
+    for argv in (("encode", P("d.icf"), P("d.vcz"), "-Q", "-p", "0"), ("dencode-init", P("d.icf"), P("d.vcz"), "-n", "2", "-Q"),
+                 ("convert", vcf, P("d.vcz"), "-Q", "-p", "0")):
+        rc, out = run("vcf2zarr", *argv, inp=r.choice(["n\n", "\n"]))
+        check(f"{argv[0]} onto an unfinished store, declined, leaves it intact", rc != 0 and tree(P("d.vcz")) == t0, out)
     rc, out = run("vcf2zarr", "dencode-finalise", P("d.vcz"), "-Q")
     check("dencode-finalise refuses with one partition missing", rc != 0 and not os.path.exists(P("d.vcz/.zmetadata")), out)
     rc, out = run("vcf2zarr", "dencode-partition", P("d.vcz"), "0", "--one-based")
@@ -330,6 +349,30 @@ def part_b(ctx):
     a, b = snap_vcz(P("d.vcz")), snap_vcz(P("lref.vcz"))
     b.pop("region_index", None)
     check("dencode result == encode (minus region_index)", a == b)
+    # distributed encode with a cap on the variant chunks: the printed count is still the needed count
+    for nn, ll, VV in ((4, 2, 2), (5, 3, 1), (3, 1, 2), (r.randint(2, 6), r.randint(1, 4), r.randint(1, 3))):
+        shutil.rmtree(P("dv.vcz"), ignore_errors=True)
+        rc, out = run("vcf2zarr", "dencode-init", P("d.icf"), P("dv.vcz"), "-n", str(nn), "-l", str(ll), "-V", str(VV), "--json", "-Q")
+        mv = json.loads(out)["num_partitions"] if rc == 0 else 0
+        tag = f"dencode-init -n {nn} -l {ll} -V {VV}"
+        check(f"{tag} prints the partition count", rc == 0 and mv >= 1, out)
+        rc, out = run("vcf2zarr", "dencode-partition", P("dv.vcz"), str(mv))
+        check(f"{tag}: partition index = printed count is rejected", rc != 0, out)
+        for j in range(mv - 1):
+            rc, out = run("vcf2zarr", "dencode-partition", P("dv.vcz"), str(j))
+            check(f"{tag}: partition below the printed count accepted", rc == 0, out)
+        if mv > 1:
+            rc, out = run("vcf2zarr", "dencode-finalise", P("dv.vcz"), "-Q")
+            check(f"{tag}: finalise refuses before the printed number of partitions", rc != 0 and not os.path.exists(P("dv.vcz/.zmetadata")), out)
+        rc, out = run("vcf2zarr", "dencode-partition", P("dv.vcz"), str(mv - 1))
+        check(f"{tag}: last printed partition accepted", rc == 0, out)
+        rc, out = run("vcf2zarr", "dencode-finalise", P("dv.vcz"), "-Q")
+        check(f"{tag}: finalise succeeds after exactly the printed number of partitions", rc == 0 and os.path.exists(P("dv.vcz/.zmetadata")), out)
+        shutil.rmtree(P("lv.vcz"), ignore_errors=True)
+        vcf2zarr.encode(P("lref.icf"), P("lv.vcz"), variants_chunk_size=ll, max_variant_chunks=VV, worker_processes=0)
+        a, b = snap_vcz(P("dv.vcz")), snap_vcz(P("lv.vcz"))
+        b.pop("region_index", None)
+        check(f"{tag}: result == encode with the same cap", a == b)
     # inspect
     rc, out = run("vcf2zarr", "inspect", P("d.icf"))
     check("inspect icf", rc == 0 and "FORMAT/GT" in out, out[:200])
